@@ -21,6 +21,9 @@ PKGS = {
     "showp": {"p.go": "package showp\n\nimport \"github.com/google/wire\"\n\ntype DSN string\ntype Flags int\ntype Port int\ntype Config struct{ Port Port }\ntype In struct{ Name Name }\ntype Name string\ntype Clock struct{}\n\n"
                       "func NewConfig(d DSN, f Flags) Config { return Config{} }\nfunc NewClock() Clock { return Clock{} }\n\n"
                       "var Set = wire.NewSet(NewConfig, wire.FieldsOf(new(Config), \"Port\"), NewClock, wire.FieldsOf(new(In), \"Name\"))\n"},
+    # an alias of the marker type next to a set declared with it: gen accepts, so must check and show
+    "aliasps": {"p.go": "package aliasps\n\nimport \"github.com/google/wire\"\n\ntype PS = wire.ProviderSet\n\ntype A struct{ N int }\n\nfunc NewA() A { return A{N: 1} }\n\nvar S PS = wire.NewSet(NewA)\n",
+                "wire.go": HDR % "aliasps" + "func InitA() A {\n\tpanic(wire.Build(S))\n}\n"},
     "cyc": {"p.go": "package cyc\n\nimport \"github.com/google/wire\"\n\ntype A struct{ N int }\ntype B struct{ N int }\n\nfunc NewA(b B) A { return A{} }\nfunc NewB(a A) B { return B{} }\nfunc NewC() int { return 1 }\n\nvar Unused = wire.NewSet(NewA, NewB)\n",
             "wire.go": HDR % "cyc" + "func InitC() int {\n\tpanic(wire.Build(NewC))\n}\n"},
 }
@@ -33,6 +36,8 @@ SHOW_PKGS = {
     "shapp": {"p.go": "package shapp\n\nimport (\n\t\"example.com/w/shcache\"\n\t\"example.com/w/shstore\"\n\t\"github.com/google/wire\"\n)\n\ntype App struct {\n\tS shstore.Store\n\tC shcache.Cache\n}\n\n"
                       "func NewApp(s shstore.Store, c shcache.Cache) App { return App{S: s, C: c} }\n\nvar Set = wire.NewSet(shstore.Set, shcache.Providers, NewApp)\n\nvar Providers = wire.NewSet(Set)\n",
               "wire.go": HDR % "shapp" + "func Init() App {\n\tpanic(wire.Build(Set))\n}\n"},
+    # a set re-exported under another name by a package that does not even import wire
+    "shre": {"p.go": "package shre\n\nimport \"example.com/w/shstore\"\n\nvar ReExport = shstore.Set\n"},
 }
 # source variants of one package for the histories
 VARIANTS = {
@@ -429,7 +434,7 @@ def eng_cli(pid, tier, wd, known, replay=None):
             # included named sets, with variable names shared across packages
             shutil.rmtree(root, ignore_errors=True)
             write_ws(root, SHOW_PKGS)
-            s_rc, sso, sse = wire(root, ["show", "./shapp"])
+            s_rc, sso, sse = wire(root, ["show", "./shapp", "./shre"])
             stats["invocations"] += 1
             blocks, cur = {}, None
             for line in sso.split("\n"):
@@ -442,8 +447,11 @@ def eng_cli(pid, tier, wd, known, replay=None):
                 elif line.strip() == "" or not line.startswith("\t"):
                     cur = None if not line.startswith("\t") else cur
             want = {'"example.com/w/shapp".Set': ['"example.com/w/shbase".Set', '"example.com/w/shcache".Providers', '"example.com/w/shstore".Set'],
-                    '"example.com/w/shapp".Providers': ['"example.com/w/shapp".Set', '"example.com/w/shbase".Set', '"example.com/w/shcache".Providers', '"example.com/w/shstore".Set']}
+                    '"example.com/w/shapp".Providers': ['"example.com/w/shapp".Set', '"example.com/w/shbase".Set', '"example.com/w/shcache".Providers', '"example.com/w/shstore".Set'],
+                    '"example.com/w/shre".ReExport': ['"example.com/w/shbase".Set', '"example.com/w/shstore".Set']}
             got = {k: blocks.get(k) for k in want}
+            if sorted(blocks) != sorted(want):
+                got["(sets listed)"] = sorted(blocks); want["(sets listed)"] = sorted(k for k in want)
             if s_rc != 0 or got != want:
                 viol.append(({"property": pid, "kind": "failing-input", "broken": "C19 oracle: wire show, included named sets", "input": {"files": SHOW_PKGS},
                               "impl": {"exit": s_rc, "show": sso[-1500:], "stderr": sse[-400:]},
